@@ -127,14 +127,16 @@ func (c *P1Claims) SetSoftwareComponents(scs []ISwComponent) error {
 		return nil
 	}
 
-	if c.SwComponents == nil {
-		c.SwComponents = &SwComponents[*SwComponent]{}
+	swComponents := c.SwComponents
+	if swComponents == nil {
+		swComponents = &SwComponents[*SwComponent]{}
 	}
 
-	if err := c.SwComponents.Replace(scs); err != nil {
+	if err := swComponents.Replace(scs); err != nil {
 		return err
 	}
 
+	c.SwComponents = swComponents
 	c.NoSwMeasurements = nil
 
 	return nil
